@@ -95,4 +95,11 @@ CHECKS = {
          "the same result; (b) BFS (depth 4/5) over {create codec for D / List[D] / Outer, define subclass, encode/decode through the oldest and a new "
          "codec, to_dict, from_dict}: every result equals the result on a fresh family.",
     note="hooks excluded (C19); format documents compared after parsing with the format's own library, inside the common representable subset"),
+ "C19": dict(engine="E1 schema-space", design_ref="6/C19",
+    technique="exhaustive enumeration of hooked dataclass trees x shapes x context opt-in masks x entry points with marking hooks",
+    text="Every tree of depth 2 and 3 over nine child shapes (field, List, Dict, Optional, Tuple, Union in both member orders, list of unions, "
+         "Union with a scalar first) x mixin / plain / orjson / msgpack class kinds x ADD_SERIALIZATION_CONTEXT masks x 6-8 entry points: serialize "
+         "hook trace == pre/post-order traversal; each hook's return value used exactly once (marks in output/result); post-deserialize multiset == "
+         "instances of the result; context reaches exactly the opted-in nodes below opted-in ancestors.",
+    note="hooks mark tags so that 'return value is what is used' is observable; deserialize pre-hooks of speculative union attempts are allowed (only post counts are exact)"),
 }
